@@ -445,6 +445,52 @@ func resolveIncludePaths(basePath string, includes []ast.Include) []string {
 	return resolved
 }
 
+// adoptByPatternLocked looks after a file that no include directive names
+// literally: when an include pattern of a member matches its path, the
+// pattern is expanded anew (the file may have been created after the pattern
+// was last expanded) and the member's include list brought up to date. It
+// reports whether some member's list changed.
+func (w *Workspace) adoptByPatternLocked(path string) bool {
+	if w.resolved == nil || w.index == nil {
+		return false
+	}
+	adopted := false
+	check := func(member string, journal *ast.Journal) {
+		if journal == nil || w.index.FileIndex(member) == nil {
+			return
+		}
+		matched := false
+		for _, inc := range journal.Includes {
+			if !include.IsGlobPattern(inc.Path) || include.CheckGlobComplexity(inc.Path) != nil {
+				continue
+			}
+			pattern := include.ExpandHome(include.ConvertHledgerGlob(inc.Path))
+			if !filepath.IsAbs(pattern) {
+				pattern = filepath.Join(filepath.Dir(member), pattern)
+			}
+			if ok, _ := doublestar.PathMatch(pattern, path); ok {
+				matched = true
+				break
+			}
+		}
+		if !matched {
+			return
+		}
+		old := append([]string(nil), w.includeGraph[member]...)
+		fresh := resolveIncludePaths(member, journal.Includes)
+		if !sameStringSlice(old, fresh) {
+			w.updateIncludeEdgesLocked(member, old, fresh)
+			w.index.FileIndex(member).Includes = fresh
+			adopted = true
+		}
+	}
+	check(w.rootJournalPath, w.resolved.Primary)
+	for member, journal := range w.resolved.Files {
+		check(member, journal)
+	}
+	return adopted
+}
+
 // Transaction key format:
 // YYYY-MM-DD|payeeOrDescription|account|amount|commodity;...
 // Posting order is normalized by sorting posting strings, so whitespace/order differences do not affect the key.
